@@ -103,7 +103,8 @@ def handle (stream : String) (args : List String) : String :=
     | ["init", ip, port, maxp, _] =>
       match ip.toNat?, port.toNat?, maxp.toNat? with
       | some ip, some port, some maxp =>
-        let pub (s : St) : String := s!"{showAddr s.remote}/{b01 s.rtpLatched}/{s.expected}"
+        let pub (s : St) : String :=
+          s!"{showAddr s.remote}/{b01 s.rtpLatched}/{s.expected}/{match s.rtcpRemote with | none => "-" | some a => showAddr a}"
         -- ops before `|` happen inside `set_remote_description` and are applied silently
         let rec go (s : St) (silent : Bool) (ops : List String) (acc : List String) : List String :=
           match ops with
